@@ -1,22 +1,16 @@
-//! C38 — `KBucketsTable::closest_keys` / `closest` / `ClosestBucketsIter` on a table over raw
-//! 256-bit keys (hook `verif_c38::VerifTable`) vs the Lean model `C38`.
-use std::num::NonZeroUsize;
-use std::time::Duration;
+//! C38 — `KBucketsTable::closest_keys` / `closest` / `ClosestBucketsIter` on the routing table over
+//! raw 256-bit keys vs the Lean model `C38` (composed with the C37 table model).
+//! Tables are built with the C37 operations (inserts of both statuses, updates, removals, pending
+//! entries, virtual-clock advances), so `apply_pending` fires during the enumeration.
+use std::sync::atomic::Ordering;
 
 use hcore::{hex, Args, Out, Rng};
-use libp2p_kad::verif_c38::{self as hook, VerifInsert, VerifTable};
+use libp2p_kad::verif_c38 as hook;
 use libp2p_kad::verif_c40::{self as raw, KeyBytes};
-use libp2p_kad::{KBucketDistance as Distance, NodeStatus, U256};
+use libp2p_kad::{KBucketDistance as Distance, U256};
 
-fn key(x: U256) -> KeyBytes {
-    raw::key_from_raw(x.to_big_endian())
-}
-fn h(x: U256) -> String {
-    hex(&x.to_big_endian())
-}
-fn parse(s: &str) -> U256 {
-    U256::from_big_endian(&hcore::unhex(s))
-}
+use crate::c37::{h, key, parse, s, universe, Case, VIRTUAL};
+
 fn keys_tok(ks: &[KeyBytes]) -> String {
     if ks.is_empty() {
         "-".into()
@@ -25,62 +19,57 @@ fn keys_tok(ks: &[KeyBytes]) -> String {
     }
 }
 
-struct Case {
-    table: VerifTable,
+/// all keys stored in the table right now (read-only dump), sorted
+fn stored_tok(case: &Case) -> String {
+    let mut ks: Vec<[u8; 32]> =
+        case.table.raw_dump().iter().flat_map(|b| b.nodes.iter().map(|n| raw::key_raw(&n.0))).collect();
+    ks.sort();
+    if ks.is_empty() {
+        "-".into()
+    } else {
+        ks.iter().map(|k| hex(k)).collect::<Vec<_>>().join(",")
+    }
 }
 
-impl Case {
-    fn new(local: U256, bsize: usize) -> Case {
-        // a pending timeout far beyond the run time: pending entries are never applied here (C37 covers them)
-        Case { table: VerifTable::new(key(local), NonZeroUsize::new(bsize).unwrap(), Duration::from_secs(1 << 30)) }
-    }
-
-    fn op(&mut self, out: &mut Out, op: &[String]) {
-        out.op(&op.join(" "));
-        let table = &mut self.table;
-        let r = hcore::guarded(|| match op[0].as_str() {
-            "insert" => {
-                let k = key(parse(&op[1]));
-                match table.insert(&k, 0, NodeStatus::Connected) {
-                    VerifInsert::Local => "local".to_string(),
-                    VerifInsert::Present => "present".to_string(),
-                    VerifInsert::PendingPresent => "pending-present".to_string(),
-                    VerifInsert::Inserted => "inserted".to_string(),
-                    VerifInsert::Full => "full".to_string(),
-                    VerifInsert::Pending(_) => "pending".to_string(),
-                }
-            }
-            "closest" => keys_tok(&table.closest_keys(&key(parse(&op[1])))),
-            "closestv" => {
-                let v: Vec<KeyBytes> = table.closest(&key(parse(&op[1]))).into_iter().map(|e| e.0).collect();
-                keys_tok(&v)
-            }
-            "order" => hcore::list(&hook::closest_buckets_order(Distance(parse(&op[1])))),
-            other => panic!("unknown op {other}"),
-        });
-        match r {
-            Ok(s) => out.imp(&s),
-            Err(m) => out.imp(&format!("panic {m}")),
+fn do_op(case: &mut Case, out: &mut Out, op: &[String]) {
+    out.op(&op.join(" "));
+    let r = hcore::guarded(|| match op[0].as_str() {
+        "closest" => {
+            let ks = case.table.closest_keys(&key(parse(&op[1])));
+            // drain the applied-pending queue like every other op does
+            while case.table.take_applied_pending().is_some() {}
+            format!("{} # {}", keys_tok(&ks), stored_tok(case))
         }
-    }
-}
-
-fn s(v: &[&str]) -> Vec<String> {
-    v.iter().map(|x| x.to_string()).collect()
-}
-
-/// a distance whose highest set bit is `i`
-fn dist_in_bucket(rng: &mut Rng, i: usize) -> U256 {
-    let top = U256::one() << i;
-    let low = if i == 0 { U256::zero() } else { U256::from_big_endian(&rng.bytes(32)) & (top - U256::one()) };
-    match rng.usize(4) {
-        0 => top,
-        1 => top | (top - U256::one()),
-        _ => top | low,
+        "closestv" => {
+            let ks: Vec<KeyBytes> = case.table.closest(&key(parse(&op[1]))).into_iter().map(|e| e.0).collect();
+            while case.table.take_applied_pending().is_some() {}
+            format!("{} # {}", keys_tok(&ks), stored_tok(case))
+        }
+        "order" => hcore::list(&hook::closest_buckets_order(Distance(parse(&op[1])))),
+        // table-building operation of C37: only its result token is reported here
+        _ => case.run_op(op).split(' ').next().unwrap().to_string(),
+    });
+    match r {
+        Ok(s) => out.imp(&s),
+        Err(m) => out.imp(&format!("panic {m}")),
     }
 }
 
 const BUCKETS: [usize; 10] = [0, 0, 1, 2, 7, 8, 128, 254, 255, 255];
+
+fn target(rng: &mut Rng, local: U256, keys: &[U256]) -> U256 {
+    match rng.usize(9) {
+        0 => local,
+        1 if !keys.is_empty() => *rng.pick(keys),
+        2 => local ^ U256::one(),
+        3 => local ^ U256::from(2),
+        4 => local ^ U256::from(3),
+        5 => local ^ (U256::one() << 255),
+        6 => local ^ (U256::one() << rng.usize(256)),
+        7 if !keys.is_empty() => *rng.pick(keys) ^ U256::one(),
+        _ => U256::from_big_endian(&rng.bytes(32)),
+    }
+}
 
 fn gen_case(out: &mut Out, idx: u64, seed: u64) {
     let mut rng = Rng::for_case(seed, idx);
@@ -89,75 +78,102 @@ fn gen_case(out: &mut Out, idx: u64, seed: u64) {
         1 => U256::MAX,
         _ => U256::from_big_endian(&rng.bytes(32)),
     };
-    let bsize = *rng.pick(&[1usize, 2, 3, 20, 20]);
-    let nkeys = rng.usize(61);
-    let with_b0 = rng.chance(2, 3);
-    let mut case = Case::new(local, bsize);
-    let mut ops: Vec<Vec<String>> = vec![];
-    let mut stored: Vec<U256> = vec![];
-    if with_b0 {
-        stored.push(local ^ U256::one());
+    let bsize = *rng.pick(&[1usize, 2, 3, 3, 20]);
+    let timeout = *rng.pick(&[1u64, 5, 60]);
+    let nb = 1 + rng.usize(6);
+    let mut buckets: Vec<usize> = vec![];
+    while buckets.len() < nb {
+        let b = if rng.chance(3, 4) { *rng.pick(&BUCKETS) } else { rng.usize(256) };
+        if !buckets.contains(&b) {
+            buckets.push(b);
+        }
     }
-    for _ in 0..nkeys {
-        let i = if rng.chance(3, 4) { *rng.pick(&BUCKETS) } else { rng.usize(256) };
-        stored.push(local ^ dist_in_bucket(&mut rng, i));
+    let per_bucket = 2 + rng.usize(8);
+    let mut keys = universe(&mut rng, local, &buckets, per_bucket);
+    if rng.chance(2, 3) && !keys.contains(&(local ^ U256::one())) {
+        keys.push(local ^ U256::one());
     }
-    if rng.chance(1, 8) {
-        stored.push(local);
-    }
-    if !stored.is_empty() && rng.chance(1, 4) {
-        let dup = *rng.pick(&stored);
-        stored.push(dup);
-    }
-    rng.shuffle(&mut stored);
-    let target = |rng: &mut Rng| -> U256 {
-        match rng.usize(9) {
-            0 => local,
-            1 if !stored.is_empty() => *rng.pick(&stored),
-            2 => local ^ U256::one(),
-            3 => local ^ U256::from(2),
-            4 => local ^ U256::from(3),
-            5 => local ^ (U256::one() << 255),
-            6 => {
-                let i = rng.usize(256);
-                local ^ dist_in_bucket(rng, i)
-            }
-            7 if !stored.is_empty() => *rng.pick(&stored) ^ U256::one(),
-            _ => U256::from_big_endian(&rng.bytes(32)),
+    let nk = keys.len();
+    let mut case = Case::new(local, bsize, timeout, keys.clone());
+    let class = if bsize <= 3 { "small-buckets" } else { "table" };
+    out.case(idx, &format!("{class} nt=1 {}", case.header(bsize, timeout)));
+    let nops = 20 + rng.usize(120);
+    let query = |case: &mut Case, out: &mut Out, rng: &mut Rng| {
+        let t = target(rng, local, &keys);
+        let name = if rng.chance(1, 4) { "closestv" } else { "closest" };
+        do_op(case, out, &s(&[name, &h(t)]));
+        if rng.chance(1, 3) {
+            do_op(case, out, &s(&["order", &h(local ^ t)]));
         }
     };
-    let mut q = Rng::for_case(seed ^ 0x5eed, idx);
-    for (n, k) in stored.iter().enumerate() {
-        ops.push(s(&["insert", &h(*k)]));
-        if n % 16 == 7 {
-            let t = target(&mut q);
-            ops.push(s(&["closest", &h(t)]));
+    for _ in 0..nops {
+        let k = if rng.chance(1, 40) { "L".to_string() } else { rng.usize(nk).to_string() };
+        let st = if rng.chance(1, 2) { "c" } else { "d" };
+        match rng.usize(20) {
+            0..=7 => do_op(&mut case, out, &s(&["ins", &k, &rng.below(100).to_string(), st])),
+            8..=9 => do_op(&mut case, out, &s(&["upd", &k, st])),
+            10..=12 => do_op(&mut case, out, &s(&["rem", &k])),
+            13..=15 => {
+                let n = *rng.pick(&[0, 1, timeout.saturating_sub(1), timeout, timeout, timeout + 1, 3 * timeout]);
+                do_op(&mut case, out, &s(&["adv", &n.to_string()]));
+            }
+            _ => query(&mut case, out, &mut rng),
         }
     }
-    for _ in 0..(2 + q.usize(5)) {
-        let t = target(&mut q);
-        ops.push(s(&[if q.chance(1, 4) { "closestv" } else { "closest" }, &h(t)]));
-        ops.push(s(&["order", &h(local ^ t)]));
+    query(&mut case, out, &mut rng);
+    out.end();
+}
+
+/// directed: a pending entry that becomes applicable — with and without room in its bucket — and is
+/// applied only by the enumeration itself
+fn gen_pending_case(out: &mut Out, idx: u64, seed: u64) {
+    let mut rng = Rng::for_case(seed, idx);
+    let local = U256::from_big_endian(&rng.bytes(32));
+    let bsize = 1 + rng.usize(3);
+    let timeout = *rng.pick(&[1u64, 5]);
+    let i = *rng.pick(&[2usize, 3, 7, 128, 255]);
+    let other = *rng.pick(&[0usize, 1, 8, 254]);
+    let mut keys = universe(&mut rng, local, &[i], bsize + 2);
+    keys.extend(universe(&mut rng, local, &[other], 2));
+    let mut case = Case::new(local, bsize, timeout, keys.clone());
+    out.case(idx, &format!("pending nt=1 {}", case.header(bsize, timeout)));
+    let far = (keys.len() - 1).to_string();
+    do_op(&mut case, out, &s(&["ins", &far, "9", if rng.bool() { "c" } else { "d" }]));
+    // fill bucket `i`, at least the first node disconnected
+    for k in 0..bsize {
+        let st = if k == 0 || rng.bool() { "d" } else { "c" };
+        do_op(&mut case, out, &s(&["ins", &k.to_string(), &k.to_string(), st]));
     }
-    let nt = stored.len() >= 2;
-    let class = if with_b0 { "table-b0" } else { "table" };
-    out.case(idx, &format!("{class} nt={} local={} bsize={}", nt as u8, h(local), bsize));
-    for op in &ops {
-        case.op(out, op);
+    // a connected node becomes pending
+    do_op(&mut case, out, &s(&["ins", &bsize.to_string(), "7", "c"]));
+    match rng.usize(3) {
+        0 => do_op(&mut case, out, &s(&["rem", &rng.usize(bsize).to_string()])), // room appears
+        1 => do_op(&mut case, out, &s(&["upd", &bsize.to_string(), "d"])),     // pending turns disconnected
+        _ => {}
+    }
+    let n = if rng.chance(1, 4) { timeout - 1 } else { timeout + rng.below(2) };
+    do_op(&mut case, out, &s(&["adv", &n.to_string()]));
+    for _ in 0..2 {
+        let t = target(&mut rng, local, &keys);
+        do_op(&mut case, out, &s(&[if rng.bool() { "closest" } else { "closestv" }, &h(t)]));
     }
     out.end();
 }
 
 pub fn run(args: &Args, out: &mut Out) {
+    VIRTUAL.store(true, Ordering::SeqCst);
     if let Some(cases) = args.replay_cases() {
         for (i, (hdr, ops)) in cases.iter().enumerate() {
             let get = |name: &str| hdr.iter().find_map(|t| t.strip_prefix(&format!("{name}=")).map(|v| v.to_string()));
             let local = get("local").map(|v| parse(&v)).unwrap_or(U256::zero());
             let bsize: usize = get("bsize").and_then(|v| v.parse().ok()).unwrap_or(20);
-            out.case(i as u64, &format!("replay nt=1 local={} bsize={}", h(local), bsize));
-            let mut case = Case::new(local, bsize);
+            let timeout: u64 = get("timeout").and_then(|v| v.parse().ok()).unwrap_or(60);
+            let keys: Vec<U256> =
+                get("keys").map(|v| v.split(',').filter(|x| x.len() == 64).map(parse).collect()).unwrap_or_default();
+            let mut case = Case::new(local, bsize, timeout, keys);
+            out.case(i as u64, &format!("replay nt=1 {}", case.header(bsize, timeout)));
             for op in ops {
-                case.op(out, op);
+                do_op(&mut case, out, op);
             }
             out.end();
         }
@@ -175,16 +191,19 @@ pub fn run(args: &Args, out: &mut Out) {
         ds.push(p | U256::one());
     }
     for chunk in ds.chunks(32) {
-        out.case(idx, &format!("orders nt=1 local={} bsize=1", h(U256::zero())));
-        let mut case = Case::new(U256::zero(), 1);
+        let mut case = Case::new(U256::zero(), 1, 60, vec![]);
+        out.case(idx, &format!("orders nt=1 {}", case.header(1, 60)));
         for d in chunk {
-            case.op(out, &s(&["order", &h(*d)]));
+            do_op(&mut case, out, &s(&["order", &h(*d)]));
         }
         out.end();
         idx += 1;
     }
-    let n = args.n(400, 4_000);
-    for _ in 0..n {
+    for _ in 0..args.n(300, 3_000) {
+        gen_pending_case(out, idx, args.seed);
+        idx += 1;
+    }
+    for _ in 0..args.n(400, 4_000) {
         gen_case(out, idx, args.seed);
         idx += 1;
     }
